@@ -140,6 +140,22 @@ theorem T_C10_side_index :
       (c ∈ ((sideCorners (CBV.Gen.sidesMap.getD i "?")).getD [])) =
         (c = i ∨ c = (i + 1) % 4 ∨ c = i + 4 ∨ c = (i + 1) % 4 + 4) := by decide
 
+/-- the sides `get_patches_at_corner` consults for corner `c` are exactly the three sides that contain `c` -/
+theorem T_C10_sides_at_corner :
+    ∀ c ∈ List.range 8, (sidesAtCorner c).Nodup ∧
+      ∀ e ∈ CBV.Gen.faceMap, (e.1 ∈ sidesAtCorner c) = (c ∈ e.2) := by decide
+
+/-- hence a patch assigned to one side is reported at exactly the four corners of that side -/
+theorem T_C10_patch_at_corners (name : String) :
+    ∀ e ∈ CBV.Gen.faceMap, ∀ c ∈ List.range 8,
+      ((Op.setPatch {} e.1 name).map (fun o => o.patchesAtCorner c)) = some (if c ∈ e.2 then [name] else []) := by
+  intro e he
+  simp only [CBV.Gen.faceMap, List.mem_cons, List.not_mem_nil, or_false] at he
+  rcases he with h | h | h | h | h | h <;> subst h <;> intro c hc <;>
+    simp only [List.mem_range] at hc <;>
+    (have : c = 0 ∨ c = 1 ∨ c = 2 ∨ c = 3 ∨ c = 4 ∨ c = 5 ∨ c = 6 ∨ c = 7 := by omega) <;>
+    rcases this with h | h | h | h | h | h | h | h <;> subst h <;> rfl
+
 /-- two corners are joined by an edge of the hexahedron iff they differ in exactly one coordinate -/
 def isEdge (c1 c2 : Nat) : Bool :=
   let a := coord c1; let b := coord c2
